@@ -10,6 +10,10 @@ part "iter"  : ImageIterator histories (next / seek / close / drop / image size 
                visited, obtained under that environment; and right after every yield the
                same frame is formatted directly on the second instance (same size setting,
                same specifier, the environment in force at that moment): "direct".
+part "reent" : the same histories (no environments) with the op ["nextcd", m, how]: a next() during whose
+               first render m calls of it.close() arrive — re-entrantly, from a second thread, or from a
+               signal handler (class CloseDuring); per op additionally [calls made, refused by
+               ValueError("generator already executing"), ended otherwise].
 part "fault" : a scenario (format / str / draw / animated draw / iteration / n_frames) run
                once without fault (counting the library's calls to PIL convert / resize /
                alpha_composite / save / tobytes) and then once per call index k with a
@@ -30,6 +34,7 @@ import io
 import os
 import random
 import shutil
+import signal
 import sys
 import tempfile
 import threading
@@ -215,6 +220,85 @@ class OpenTracker:
         return sum(1 for im in self.opened if id(im) not in self.closed)
 
 
+class CloseDuring:
+    """Round 7: for the duration of ONE next(), the first `_render_image` call on `image` (made by
+    the iterator's frame generator, which is therefore EXECUTING) makes `m` calls of `it.close()`
+    arrive: re-entrantly from the render ("reent"), from a second thread while the rendering thread
+    waits behind Event gates ("thread"), or from a real signal handler (signal.raise_signal inside
+    the render: "signal").  Counts the calls made, those answered by ValueError("generator already
+    executing") and those that ended in any other way."""
+
+    def __init__(self, cls, image, it, m, how):
+        self.cls, self.image, self.it, self.m, self.how = cls, image, it, m, how
+        self.fired = False
+        self.made = self.refused = self.other = 0
+
+    def attempts(self):
+        for _ in range(self.m):
+            self.made += 1
+            try:
+                self.it.close()
+                self.other += 1
+            except ValueError as e:
+                if "already executing" in str(e):
+                    self.refused += 1
+                else:
+                    self.other += 1
+            except BaseException:  # noqa: BLE001
+                self.other += 1
+
+    def deliver(self):
+        if self.how == "thread":
+            go, done = threading.Event(), threading.Event()
+
+            def worker():
+                go.wait(30)
+                try:
+                    self.attempts()
+                finally:
+                    done.set()
+
+            t = threading.Thread(target=worker, daemon=True)
+            t.start()
+            go.set()
+            done.wait(30)
+            t.join(30)
+        elif self.how == "signal":
+            handled = threading.Event()
+
+            def handler(signum, frame):
+                try:
+                    self.attempts()
+                finally:
+                    handled.set()
+
+            prev = signal.signal(signal.SIGUSR1, handler)
+            try:
+                signal.raise_signal(signal.SIGUSR1)
+                handled.wait(30)
+            finally:
+                signal.signal(signal.SIGUSR1, prev)
+        else:
+            self.attempts()
+
+    def __enter__(self):
+        real = self.real = self.cls._render_image
+        me = self
+
+        def _render_image(self_, img, alpha, **kw):
+            if self_ is me.image and not me.fired:
+                me.fired = True
+                me.deliver()
+            return real(self_, img, alpha, **kw)
+
+        self.cls._render_image = _render_image
+        return self
+
+    def __exit__(self, *a):
+        self.cls._render_image = self.real
+        self.it = self.image = None
+
+
 # ----------------------------------------------------------------- part: iter
 
 
@@ -283,13 +367,27 @@ def run_iter_(case, idx):
         tracker.__enter__()
         it = ImageIterator(image, case["repeat"], case["spec"], case["cached"])
         res["cache_on"] = bool(it._cached)
-        rows, direct = [], []
+        rows, direct, cdrows = [], [], []
         cur_size = 0
         last_ln = None
         for op in case["ops"]:
             code, y, d = -1, -1, -1
+            cdrow = [0, 0, 0]
             try:
-                if op[0] == "next":
+                if op[0] == "nextcd":  # ["nextcd", m, how]: next() with m close() calls arriving meanwhile
+                    if it is None:
+                        code = 1
+                    else:
+                        with CloseDuring(cls, image, it, op[1], op[2]) as cd:
+                            try:
+                                y = fid(next(it))
+                                code = 0
+                            except StopIteration:
+                                code = 1
+                            finally:
+                                cdrow = [cd.made, cd.refused, cd.other]
+                        del cd
+                elif op[0] == "next":
                     if it is None:
                         code = 1
                     else:
@@ -347,6 +445,8 @@ def run_iter_(case, idx):
                 finally:
                     tracker.paused = False
             direct.append(d)
+            cdrows.append(cdrow)
+        res["cd"] = cdrows
         tracker.__exit__()
         res["opened"] = len(tracker.opened)
         tracker.opened.clear()
@@ -677,7 +777,7 @@ def main():
     try:
         for i, c in enumerate(cases):
             try:
-                out.append({"iter": run_iter, "fault": run_fault, "url": run_url}[c["part"]](c, i))
+                out.append({"iter": run_iter, "reent": run_iter, "fault": run_fault, "url": run_url}[c["part"]](c, i))
             except Exception:  # noqa: BLE001
                 import traceback
                 sys.stdout = REAL_STDOUT
